@@ -3,7 +3,8 @@
    30 iterations, i128 overflow guards) to Coq's primitive binary64 floats, so that the exponent
    the VM computes (quantity.rs Quantity::checked_power: f64 arithmetic, then from_f64) can be
    evaluated inside the kernel.  Used only for the `_refuted` witness of finding C01-exponent-f64. *)
-From Coq Require Import ZArith QArith Floats Bool.
+From Coq Require Import ZArith QArith Bool.
+From Coq Require Import FloatClass PrimFloat SpecFloat FloatOps.   (* not Floats: FloatAxioms and FloatLemmas (Psatz, Reals) stay out of the checked cone *)
 Open Scope Z_scope.
 
 Definition TMAX : Z := 2 ^ 127 - 1.                       (* i128::MAX *)
